@@ -1,5 +1,212 @@
 import U3.Model.Multipart
+import U3.Lemmas.Multipart
+/-!
+# C20 — multipart form encoding is structurally sound for any field content
+
+All statements are about `U3.Multipart` (the executable model the driver `multipart` runs) and hold
+for **all** strings / field lists.  `Str` = code points, `Bytes` = bytes; 34 = `"`, 13 = CR, 10 = LF,
+58 = `:`.  `delim b = CRLF--b`, `FieldSafe f` = "the caller-written header text of `f` is benign"
+(no `:` in a rendered header name, no CR in a rendered header name or value), `partOf f` = the part
+the field specifies (UTF-8 of its header lines, its data bytes).
+-/
 namespace U3.Props
 open U3 U3.Multipart
-theorem C20_placeholder : (1:Nat) = 1 := rfl
+
+/-- the escape table read from the source covers `"`, CR, LF and never re-introduces them -/
+theorem C20_escape_table_covers : tableSafe Gen.escapeTable = true := tableSafe_gen
+
+/-- for ALL names and values: `format_multipart_header_param` yields `name="q"` where the quoted
+text `q` contains no `"`, no CR and no LF — no value can terminate the parameter or the line -/
+theorem C20_param_safe (name value : Str) :
+    ∃ q, formatParam name value = name ++ [61, 34] ++ q ++ [34] ∧ 34 ∉ q ∧ 13 ∉ q ∧ 10 ∉ q :=
+  ⟨escape value, rfl, escape_safe value⟩
+
+/-- escaping only ever *adds* the three replacement texts: a character that is not `"`, CR, LF is
+kept as it is (so every other byte of a name reaches the server unchanged) -/
+theorem C20_param_keeps_other_chars (c : Nat) (h : c ≠ 34 ∧ c ≠ 13 ∧ c ≠ 10) (pre post : Str) :
+    escape (pre ++ c :: post) = escape pre ++ c :: escape post := by
+  have : escChar c = [c] := by
+    unfold escChar
+    have hl : Gen.escapeTable.lookup c = none := by
+      obtain ⟨h1, h2, h3⟩ := h
+      have e1 : (c == 10) = false := by simp [h3]
+      have e2 : (c == 13) = false := by simp [h2]
+      have e3 : (c == 34) = false := by simp [h1]
+      simp [Gen.escapeTable, List.lookup, e1, e2, e3]
+    simp [hl]
+  simp [escape, this]
+
+/-- WHATWG escaping is *not* injective (a literal `%22` and a quote collide); the property asks for
+"the Content-Disposition the field specifies", i.e. the escaped form, which is what the round trip
+below returns.  Recorded as a fact about the specification, not a defect. -/
+theorem C20_escape_not_injective : escape [34] = escape [37, 50, 50] ∧ ([34] : Str) ≠ [37, 50, 50] := by
+  decide
+
+/-- whatever the name and the filename (and any CR/LF-free disposition type), the rendered
+`Content-Disposition` line contains no CR and no LF; hence, once `CRLF` is appended, the first — and
+only — line break is the one that ends it: a strict reader gets the line back whole. -/
+theorem C20_header_lines_safe (cd : Option Str) (hcd : ∀ s, cd = some s → 13 ∉ s ∧ 10 ∉ s)
+    (name : Str) (filename : Option Str) (rest : List Nat) :
+    let line := headerLine (cdName, dispositionValue cd name filename)
+    13 ∉ line ∧ 10 ∉ line ∧ cut crlf (line ++ crlf ++ rest) = some (line, rest) := by
+  intro line
+  have h13 : 13 ∉ line := by
+    have := dispositionValue_safe cd name filename 13 (Or.inl rfl) (fun s h => (hcd s h).1)
+    simp [line, headerLine, cdName, colonSp, this]
+  have h10 : 10 ∉ line := by
+    have := dispositionValue_safe cd name filename 10 (Or.inr rfl) (fun s h => (hcd s h).2)
+    simp [line, headerLine, cdName, colonSp, this]
+  exact ⟨h13, h10, cut_of_not_mem 13 [10] line rest (by simp) h13⟩
+
+/-- the strict parameter parser reads the `Content-Disposition` value of any name / filename back as
+exactly `form-data` with the parameters `name` (and `filename`) carrying the escaped text: no name or
+filename can terminate a parameter, add one, or hide one -/
+theorem C20_disposition_parses (name : Str) (filename : Option Str) (v : Bytes)
+    (h : utf8 (dispositionValue none name filename) = some v) :
+    ∃ en, utf8 (escape name) = some en ∧
+      match filename with
+      | none => parseDisposition v = some (formData, [(nameKey, en)])
+      | some f => ∃ ef, utf8 (escape f) = some ef ∧
+          parseDisposition v = some (formData, [(nameKey, en), (filenameKey, ef)]) := by
+  obtain ⟨en, hen, hv⟩ := utf8_disposition name filename v h
+  refine ⟨en, hen, ?_⟩
+  have hn := paramOK_escaped nameKey (by decide) (by decide) name en hen
+  cases filename with
+  | none =>
+    simp only at hv ⊢
+    rw [hv]
+    exact parseDisposition_spec formData (by decide) (by decide) _ (by simp) (by simpa using hn)
+  | some f =>
+    simp only at hv ⊢
+    obtain ⟨ef, hef, hv⟩ := hv
+    have hf := paramOK_escaped filenameKey (by decide) (by decide) f ef hef
+    refine ⟨ef, hef, ?_⟩
+    rw [hv]
+    exact parseDisposition_spec formData (by decide) (by decide) _ (by simp) (by
+      intro kv hkv
+      simp at hkv
+      rcases hkv with rfl | rfl
+      · exact hn
+      · exact hf)
+
+/-- **Round trip, all field lists.**  If the encoder succeeds, the boundary contains no CR, the
+caller-written header text is benign and the delimiter line `CRLF--boundary` does not occur inside
+any part, then the strict reference parser reads the body back as exactly the parts the fields
+specify: same number, same order, each with exactly its header lines (Content-Disposition,
+Content-Type, …) and byte-identical data. -/
+theorem C20_roundtrip (fs : List RequestField) (boundary : Str) (body : Bytes) (ct : Str)
+    (henc : encodeMultipart fs boundary = .ok (body, ct))
+    (hcr : 13 ∉ boundary)
+    (hsafe : ∀ f ∈ fs, FieldSafe f)
+    (hb : ∀ f ∈ fs, ∀ p, partOf f = some p → ¬ delim boundary <:+: partBytes p) :
+    ∃ ps, allSome (fs.map partOf) = some ps ∧ ps.length = fs.length ∧
+      parseMultipart boundary body = some ps := by
+  obtain ⟨ps, hps, hparse⟩ := roundtrip_fields fs boundary body ct henc hcr hsafe hb
+  exact ⟨ps, hps, by simpa using allSome_length _ _ hps, hparse⟩
+
+/-- a field given as an old-style tuple is `FieldSafe` **whatever its name and filename** (only the
+explicit content type — header text the caller wrote — and the `mimetypes` answer must be CR-free) -/
+theorem C20_tuple_fields_safe (mt : Str → Option Str) (hmt : ∀ fn t, mt fn = some t → 13 ∉ t)
+    (name : Str) (v : TupleValue) (hct : ∀ fn d ct, v = .file3 fn d (some ct) → 13 ∉ ct) :
+    FieldSafe (fromTuples mt name v) :=
+  fieldSafe_fromTuples mt hmt name v hct
+
+/-- the header lines a tuple field specifies: `Content-Disposition` with the escaped parameters,
+then `Content-Type` if one is given / guessed — nothing else -/
+theorem C20_tuple_headers (mt : Str → Option Str) (name : Str) (v : TupleValue) :
+    headerLines (fromTuples mt name v) =
+      (cdName, dispositionValue none name v.filename) ::
+        (match truthy (v.contentType mt) with | some c => [(ctName, c)] | none => []) :=
+  headerLines_fromTuples mt name v
+
+/-- **Round trip for tuple inputs with hostile names and filenames** (the public entry point,
+explicit or random boundary): no hypothesis at all on names, filenames or data beyond "the delimiter
+line does not occur in a part". -/
+theorem C20_roundtrip_tuples (mt : Str → Option Str) (hmt : ∀ fn t, mt fn = some t → 13 ∉ t)
+    (tuples : List (Str × TupleValue)) (boundary : Option Str) (rand : Bytes) (body : Bytes) (ct : Str)
+    (hct : ∀ nv ∈ tuples, ∀ fn d c, nv.2 = .file3 fn d (some c) → 13 ∉ c)
+    (hcr : ∀ b, boundary = some b → 13 ∉ b)
+    (henc : encode mt (tuples.map fun nv => .tuple nv.1 nv.2) boundary rand = .ok (body, ct))
+    (hb : ∀ nv ∈ tuples, ∀ p, partOf (fromTuples mt nv.1 nv.2) = some p →
+            ¬ delim (boundary.getD (chooseBoundary rand)) <:+: partBytes p) :
+    ∃ ps, allSome (tuples.map fun nv => partOf (fromTuples mt nv.1 nv.2)) = some ps ∧
+      ps.length = tuples.length ∧
+      parseMultipart (boundary.getD (chooseBoundary rand)) body = some ps := by
+  unfold encode iterFieldObjects at henc
+  have hcr' : 13 ∉ boundary.getD (chooseBoundary rand) := by
+    cases boundary with
+    | none => exact (chooseBoundary_safe rand).1
+    | some b => exact hcr b rfl
+  have := C20_roundtrip _ _ body ct henc hcr'
+    (by
+      intro f hf
+      simp only [List.map_map, List.mem_map] at hf
+      obtain ⟨nv, hnv, rfl⟩ := hf
+      exact fieldSafe_fromTuples mt hmt nv.1 nv.2 (hct nv hnv))
+    (by
+      intro f hf
+      simp only [List.map_map, List.mem_map] at hf
+      obtain ⟨nv, hnv, rfl⟩ := hf
+      exact hb nv hnv)
+  simpa [List.map_map, Function.comp_def, fieldOf] using this
+
+/-- the returned content type names exactly the boundary that delimits the body: the body opens
+with `--boundary` and closes with `--boundary--CRLF` -/
+theorem C20_content_type_names_boundary (fs : List RequestField) (boundary : Str) (body : Bytes) (ct : Str)
+    (henc : encodeMultipart fs boundary = .ok (body, ct)) :
+    ct = ctPrefix ++ boundary ∧
+    (dashdash ++ boundary) <+: body ∧ (dashdash ++ boundary ++ dashdash ++ crlf) <:+ body := by
+  unfold encodeMultipart at henc
+  cases hl : latin1 boundary with
+  | none => simp [hl] at henc
+  | some b =>
+    have hbe := latin1_eq _ _ hl
+    subst hbe
+    cases he : encodeFields b fs with
+    | none => simp [hl, he] at henc
+    | some x =>
+      simp [hl, he] at henc
+      obtain ⟨ps, _, hser⟩ := encodeFields_eq _ fs x he
+      refine ⟨henc.2.symm, ?_, ?_⟩
+      · rw [← henc.1]
+        have : x ++ (dashdash ++ (b ++ (dashdash ++ crlf))) = serialize b ps := by
+          rw [← hser]; simp
+        rw [this]
+        exact ⟨serTail b ps, rfl⟩
+      · rw [← henc.1]
+        exact ⟨x, by simp⟩
+
+/-- the random boundary (`hexlify(os.urandom(16))`) is always acceptable: latin-1 encodable, no CR -/
+theorem C20_random_boundary_ok (rand : Bytes) :
+    13 ∉ chooseBoundary rand ∧ latin1 (chooseBoundary rand) = some (chooseBoundary rand) :=
+  chooseBoundary_safe rand
+
+/-- `request_encode_body` with no caller `Content-Type` sends the encoder's content type -/
+theorem C20_request_content_type (ct : Str) : requestContentType none ct = ct := rfl
+
+/-! ## non-vacuity -/
+
+set_option maxRecDepth 8000 in
+/-- hostile name `a"; ` CR LF `--B` CR LF and filename `"` CR LF `\`: encodes, the hypotheses of the
+round trip hold, and the parse returns two parts -/
+example :
+    let mt : Str → Option Str := fun _ => none
+    let tuples : List (Str × TupleValue) :=
+      [([97, 34, 59, 32, 13, 10, 45, 45, 66, 13, 10], .plain (.str [13, 10, 45, 45, 13, 10, 233])),
+       ([34, 13, 10], .file3 (some [34, 13, 10, 92]) (.bytes [0, 255, 13, 10]) (some [116, 47, 112]))]
+    ∃ body ct, encode mt (tuples.map fun nv => .tuple nv.1 nv.2) (some [66]) [] = .ok (body, ct) ∧
+      (∀ nv ∈ tuples, ∀ p, partOf (fromTuples mt nv.1 nv.2) = some p → ¬ delim [66] <:+: partBytes p) ∧
+      (parseMultipart [66] body).map List.length = some 2 := by
+  refine ⟨_, _, rfl, ?_, by decide⟩
+  simp only [← Option.mem_def]
+  decide
+
+example : FieldSafe (fromTuples (fun _ => none) [34, 13, 10, 58] (.file2 (some [13, 10, 13, 10]) (.str []))) :=
+  C20_tuple_fields_safe _ (by simp) _ _ (by simp)
+
+example : ∃ v, utf8 (dispositionValue none [34, 13, 10, 59] (some [233, 34])) = some v ∧
+    parseDisposition v = some (formData, [(nameKey, [37, 50, 50, 37, 48, 68, 37, 48, 65, 59]),
+                                          (filenameKey, [195, 169, 37, 50, 50])]) := by
+  refine ⟨_, rfl, by decide⟩
+
 end U3.Props
